@@ -143,6 +143,20 @@ void grids_case(size_t n1, size_t n2, std::pair<size_t, size_t> wa, std::pair<si
     after("spline-operator-bilinear-form");
     unchanged("spline-operator-bilinear-form/a2", a2, sa2, g);
   }
+  // one operator / form OBJECT used repeatedly: a refusal must be repeated, not remembered as "already checked"
+  {
+    SplineOperator opb{b};
+    for (int rep = 0; rep < 3; rep++) {
+      Spline<Real, oa + ob> r(G);
+      entry("spline-operator-object-reused/apply" + std::to_string(rep), differ, a_iv, [&] { r = opb * a; }, [&] { same_spline("spline-operator-object-reused", r, SplineOperator{shared_b()} * a); });
+    }
+    LinearForm lf{SplineOperator{b}};
+    for (int rep = 0; rep < 2; rep++) {
+      Real r(0);
+      entry("linear-form-object-reused/" + std::to_string(rep), differ, a_iv, [&] { r = lf(a); }, [&] { E.prove("linear-form-object-reused/same-as-shared-grid", sym::eq(r, LinearForm{SplineOperator{shared_b()}}(a))); });
+    }
+    after("spline-operator-object-reused");
+  }
   // objects with a history: r took part in operations on G, then is assigned (move / copy / lower order) a spline living on H;
   // every later two-spline operation with a spline on G must be refused exactly when the grids differ
   if constexpr (ob <= oa) {
